@@ -15,9 +15,17 @@ MODULES = {
     "C02": "props_trace",
     "C03": "props_trace",
     "C04": "props_c04",
+    "C06": "props_frame",
     "C07": "props_trace",
+    "C15": "props_frame",
     "C10": "props_c10",
+    "C12": "props_c12",
+    "C13": "props_engine",
+    "C17": "props_c12",
+    "C14": "props_engine",
     "C16": "props_c16",
+    "C18": "props_c18",
+    "C20": "props_engine",
     "C19": "props_c19",
 }
 
